@@ -16,6 +16,14 @@ var props = map[string]propCfg{
 	"C09": {engine: "codec", gen: true, level: "exploration", qShards: 8, tShards: 16, assume: codecAssume},
 	"C18": {engine: "codec", gen: true, level: "exploration", qShards: 8, tShards: 16, assume: codecAssume},
 	"C20": {engine: "codec", gen: true, level: "exploration", qShards: 8, tShards: 16, assume: codecAssume},
+	"C10": {engine: "bus", gen: true, race: true, level: "exploration", qShards: 6, tShards: 16, qTimeout: 8 * time.Minute, assume: busAssume},
+	"C17": {engine: "bus", gen: true, race: true, raceViol: true, racePkg: "qiloop/bus/net", level: "exploration", qShards: 12, tShards: 16, assume: busAssume},
+}
+
+var busAssume = []string{
+	"workloads run real qiloop code in-process over harness-owned streams, listeners and service implementations; interleavings are those the Go scheduler produces under the harness's barriers, yields and gates",
+	"'never returns' is decided by the goroutine-state quiescence detector (harness/stuck), never by a timeout; a wall-clock watchdog only yields 'inconclusive'",
+	"the Go race detector reports only races on executed paths",
 }
 
 var _ = time.Second
